@@ -49,6 +49,8 @@ POOL = [
 POOL += ["<u%d>x</u%d>" % (i, i) for i in range(0, 300, 7)]
 BYTES_POOL = [b"<meta charset=koi8-r>\xc1\xc2", b"<p>\xe9", b"\xef\xbb\xbf<p>x", b"<title>x</title><meta charset=shift_jis>\x82\xa0",
               b"<meta http-equiv=content-type content='text/html; charset=iso-8859-2'>\xb1", b"<!--" + b"x" * 1100 + b"--><meta charset=utf-8>\xc3\xa9"]
+ENTITY_NAMES = ["amp;", "lt;", "gt", "notin;", "not", "copy", "zwnj;", "NotEqualTilde;", "aacute", "Aacute;", "xi;", "Xi;", "nbsp", "para;", "parallel;",
+                "rarr;", "rArr;", "CounterClockwiseContourIntegral;", "b;", "bogus;", "zeta;", "Zeta;", "quot", "apos;", "hellip;", "mdash;"]
 CONTAINERS = ["div", "table", "tr", "td", "select", "textarea", "title", "script", "pre", "html", "body", "head", "p", "svg"]
 
 
@@ -270,7 +272,9 @@ class YieldInjector(object):
                 if len(self.signatures) < 50000:
                     self.signatures.add((self.last_thread[1], "%s:%d" % (os.path.basename(code.co_filename), line)))
             self.last_thread = (tid, "%s:%d" % (os.path.basename(code.co_filename), line))
-            doit = self.rng.random() < 0.02
+            # shared, process-wide state is where a hand-off matters: yield much more often inside those modules
+            hot = code.co_filename.endswith(("_trie/py.py", "_trie/_base.py", "_utils.py")) or code.co_name in ("charsUntil", "getTreeBuilder", "getTreeWalker")
+            doit = self.rng.random() < (0.5 if hot else 0.02)
             if doit:
                 self.injections += 1
         if doit:
@@ -293,8 +297,12 @@ def thread_phase(ctx, nthreads=8, per_thread=12):
     for t in range(nthreads):
         kind = ("etree-full", "dom")[t % 2]
         hist = []
-        for _ in range(per_thread):
+        for j in range(per_thread):
             hist += gen_history(rng, False)[:2]
+            # entity-heavy documents: every thread walks the shared entity trie with different prefixes
+            names = [rng.choice(ENTITY_NAMES) for _ in range(rng.randint(3, 8))]
+            hist.append({"op": "frag", "doc": "".join("&%s %s=x " % (nm, nm[:2]) for nm in names) + "<a href='?a=1&%s&b=2'>" % names[0],
+                         "scripting": False, "container": "div", "fault": None})
         plans.append((kind, hist))
     # expected results sequentially, on fresh objects, before any thread runs
     expected = [[do_call(new_parser(kind, False), op, kind) for op in hist] for kind, hist in plans]
